@@ -33,7 +33,7 @@ func multiFail(args []string) error {
 		return err
 	}
 	predis.VerifSetSlotsRefreshTimers(time.Hour, 20*time.Millisecond)
-	w, err := cli.NewNDJSONWriter(*out)
+	w, err := newLineWriter(*out) // unbuffered: a double completion kills this process
 	if err != nil {
 		return err
 	}
